@@ -186,7 +186,7 @@ func runC05(c *core.Ctx) {
 		sch := fd.S
 		sch.Install()
 		defer sch.Uninstall()
-		defer sch.Off()
+		defer fd.Finish(c)
 		if os.Getenv("VERIF_FTRACE") == "1" {
 			fd.Trace = func(site string, n int) { c.Note("    resume %s (of %d runnable)", site, n) }
 		}
@@ -429,7 +429,7 @@ func runC05(c *core.Ctx) {
 	}
 	if gaveUp {
 		if fd != nil {
-			fd.S.Off()
+			fd.Finish(c)
 		}
 		synctest.Wait()
 		check()
@@ -503,7 +503,7 @@ func runC05(c *core.Ctx) {
 	early = 0
 	settle()
 	if fd != nil {
-		fd.S.Off()
+		fd.Finish(c)
 	}
 	synctest.Wait()
 	check()
